@@ -16,7 +16,7 @@ import os
 import numpy as np
 
 PROP = 'C14'
-TARGETS = ['T14', 'T14p']
+TARGETS = ['T14', 'T14p', 'T14v']
 LEAN_MODULES = ['HdVerif.Props.C14']
 MODEL_MODULES = ['HdVerif.Model.SRContentSeq']
 NAMESPACE = 'HdVerif.C14'
@@ -261,7 +261,12 @@ def _build(d):
         it = ContainerContentItem(nm, relationship_type=rel)
     it.ObservationUID = f"1.2.826.0.1.3680043.8.498.{d['u']}"
     if d['content']:
-        it.ContentSequence = [TextContentItem(_name(0), 'child', relationship_type='CONTAINS')]
+        # a fixture: stored directly, so that the attribute setter (under test in the 'setattr' constructions and the
+        # `attach` steps) cannot make the generator fail
+        from highdicom.sr import ContentSequence
+        from pydicom.dataset import Dataset
+        child = ContentSequence([TextContentItem(_name(0), 'child', relationship_type='CONTAINS')], is_root=False, is_sr=True)
+        Dataset.__setattr__(it, 'ContentSequence', child)
     return it
 
 
